@@ -3,7 +3,7 @@ import re
 
 from .. import dataflow as df
 from .. import lockgap
-from ..facts import Site, op_local, short
+from ..facts import Site, op_local, short, const_int
 
 EXPLANATION = (
     "Static analysis over rustc's promoted MIR. C02.a single-flight typestate: the executor is invoked only from execute_query (which "
@@ -436,6 +436,68 @@ def c02i(ctx):
         ctx.fail(o, new, "Engine::register_callee hands out an UndoRegisterCallee for every call, also when the callee was already registered by another request of the same "
                  "executor (QueryComputing::register_calee does not say which): dropping one of two concurrent requests for one key un-registers the dependency the other "
                  "has recorded, dropping both panics in abort_callee's assertion")
+
+
+    if counted:
+        _c02i_counted(ctx, prog, ab)
+
+
+def _zero_edge(ab, sb, field):
+    """The edge of switch `sb` on which `<..>.field` is known to be zero / false, or None when sb does not test that field."""
+    c = df.switch_cond(ab, sb)
+    tt, ff = df.bool_edges(ab, sb)
+    if tt is None:
+        return None
+    if c.kind == "bin":
+        pa, pb = df.access_path(ab, c.a), df.access_path(ab, c.b)
+        za, zb = const_int(c.a) == 0, const_int(c.b) == 0
+        zero_on_true = None
+        if field in pa and zb and c.op in ("Gt", "Ne"):
+            zero_on_true = False
+        elif field in pa and zb and c.op in ("Eq", "Le"):
+            zero_on_true = True
+        elif field in pb and za and c.op in ("Lt", "Ne"):
+            zero_on_true = False
+        elif field in pb and za and c.op in ("Eq", "Ge"):
+            zero_on_true = True
+        if zero_on_true is None:
+            return None
+        if c.negated:
+            zero_on_true = not zero_on_true
+        return (sb, tt if zero_on_true else ff)
+    if c.kind == "value" and field in df.access_path(ab, ab.blocks[sb]["term"]["op"]):
+        return (sb, tt if c.negated else ff)
+    return None
+
+
+def _c02i_counted(ctx, prog, ab):
+    """The counted form (D14): the registration of a callee must outlive every request that is still running AND every request
+    that has completed.  abort_callee may therefore undo it only on the path where no request is in flight and none has
+    completed - both tests, conjoined; with either test alone (or the two disjoined) the cancelled twin of a completed or
+    still-running request takes the dependency away from it."""
+    o = ctx.ob("C02.i", "abort_callee/undone-only-when-no-request-runs-and-none-completed", "K4+K2",
+               "every removal in QueryComputing::abort_callee is dominated by the `in_flight == 0` edge and by the `kept == false` edge; keep_callee raises `kept`")
+    rm = ab.calls_to(r"HashMap::<K, V, S(, A)?>::remove$|HashMap::<K, V, H>::remove_sync$|HashMap::<K, V, H>::remove_if_sync$|OccupiedEntry::<.*>::remove(_entry)?$|CalleeOrder::abort_callee$")
+    o.sites = len(rm)
+    if len(rm) < 3:
+        ctx.fail(o, Site(ab, 0, 0), "anchors missing: the three removals of abort_callee (request record, callee table, callee order), found %d" % len(rm))
+        return
+    for field, what in (("in_flight", "no other request for the callee is still running"), ("kept", "no request for the callee has completed")):
+        edges = [e for e in (_zero_edge(ab, sb, field) for sb in df.switches(ab)) if e is not None]
+        o.sites += len(edges)
+        if not edges:
+            ctx.fail(o, Site(ab, 0, 0), "anchor missing: abort_callee does not test `%s`" % field)
+            continue
+        for r_ in rm:
+            if not any(ab.edge_dominates(e, r_.bb) for e in edges):
+                ctx.fail(o, r_, "abort_callee can reach `%s` without having established that %s (`%s` is not tested, or only as an alternative): a cancelled request "
+                         "un-registers a dependency that its twin has recorded or is about to record - the caller is stored without that edge and a later change of the "
+                         "callee never invalidates it" % (r_.node["fn"]["path"].rsplit("::", 1)[-1], what, field))
+    kc = ctx.touch(prog.body("QueryComputing::keep_callee"))
+    raised = kc.assigns(lambda st: any(e.startswith("f:kept") for e in st["lhs"][1]) and st["rv"]["k"] == "use" and const_int(st["rv"]["op"]) == 1)
+    o.sites += len(raised)
+    if not raised:
+        ctx.fail(o, Site(kc, 0, 0), "keep_callee does not raise `kept`: a completed request no longer protects its registration from a cancelled twin")
 
 
 def run(ctx):
